@@ -277,6 +277,8 @@ def run(ctx):
     W = int(os.environ.get("VERIF_C19_WORKERS", str(min(NCPU, 16))))
     # (1) design-level model checking
     mc = ctx.mc("MC_Walker", ctx.pick("MC_Walker_quick.cfg", "MC_Walker.cfg"), timeout=2400, coverage=True, workers=W)
+    if not ctx.quick:
+        ctx.mc("MC_Walker", "MC_Walker_deep.cfg", timeout=3000, workers=W)      # fewer names, one more entry
     dead = [a for a, n in mc.action_cov.items() if n == 0 and a.split(".")[-1].startswith("Some")]
     if dead or not any(a.endswith("SomeLinkToDir") for a in mc.action_cov):
         raise Infra("vacuous model: actions never taken: %s (coverage %s)" % (dead, mc.action_cov))
